@@ -1,4 +1,6 @@
 """C03 — Level-triggered convergence across changes, restarts and downtime."""
+import json
+
 from hypothesis import strategies as st
 
 from props import c02, closedloop as cl
@@ -20,6 +22,7 @@ BUDGET = {'quick': 40, 'thorough': 1500}
 FINDING_A = 'C03-A-midcycle-edit-not-seen-by-finished-handler'
 FINDING_L = 'C03-L-stale-view-purge-leaves-records'
 FINDING_M = 'C03-M-revert-to-handled-state-leaves-records'
+FINDING_C = 'C03-C-write-lands-on-same-named-successor'
 SILENT = 90.0
 
 
@@ -132,6 +135,8 @@ def check(run, res, t_silent):
                    f'{[(c["rv"], _norm(cl.essence(c["view"], prefixes)).get("spec")) for c in mine]}; last-handled={stored}')
             if stale and _norm(stored) == final and is_finding_a(stale[-1], last_change, vers, dcfg, prefixes):
                 res.known.append({'id': FINDING_A, 'msg': msg})
+            elif is_finding_c(uid, name, sim, calls):
+                res.known.append({'id': FINDING_C, 'msg': msg})
             else:
                 res.fail('C03/Q4-not-handled-against-final-state', msg)
 
@@ -198,6 +203,39 @@ def is_finding_l(left, uid, vers, calls, pcfg, ids, timeout):
             continue
         for w in vers:
             if w['writer'] == c['inc'] and w['rv'] > int(c['rv']) and w['t'] + timeout - 1e-6 <= c['t0']:
+                return True
+    return False
+
+
+def is_finding_c(uid, name, sim, calls):
+    """Known finding C (listed for C08, seen here through its consequence): a write computed by a handling cycle of a
+    predecessor object of the same name (another uid, deleted meanwhile) was applied to this object, because merge-patches are
+    addressed by name only. Such a write can plant a finished progress record of the predecessor's handler on the successor."""
+    for r in sim.cluster.requests:
+        if r['client'] == 'env' or 'patch' not in r['classes'] or not r.get('applied') or r.get('target_uid') != uid or r['name'] != name:
+            continue
+        born = min(v['seq'] for v in sim.cluster.history if v['uid'] == uid)
+        if r['seq'] < born:
+            return True          # sent before this object existed at all: it was computed for the predecessor
+        text = json.dumps(r['payload'])
+        # the write carries a last-handled state that is a state of the predecessor and never was a state of this object
+        lh = None
+        if isinstance(r['payload'], dict):
+            for k, v in ((r['payload'].get('metadata') or {}).get('annotations') or {}).items():
+                if k.endswith('/last-handled-configuration') and v:
+                    lh = json.loads(v)
+            v = ((r['payload'].get('status') or {}).get('kopf') or {}).get('last-handled-configuration') if isinstance(r['payload'].get('status'), dict) else None
+            if v:
+                lh = json.loads(v)
+        if lh is not None:
+            mine = [_norm(cl.essence(v['body'])).get('spec') for v in sim.cluster.history if v['uid'] == uid]
+            others = [_norm(cl.essence(v['body'])).get('spec') for v in sim.cluster.history if v['uid'] != uid and v['name'] == name]
+            if lh.get('spec') not in mine and lh.get('spec') in others:
+                return True
+        for c in calls:
+            # the write carries the record of a handler invocation that belonged to the predecessor and ended right before it
+            if c['name'] == name and c['inc'] == r['client'] and c['uid'] != uid and c.get('seq1') is not None and 0 < r['seq'] - c['seq1'] <= 12 \
+                    and c['hid'].replace('/', '.') in text.replace('/', '.'):
                 return True
     return False
 
